@@ -68,6 +68,7 @@
 EXTENDS Integers, Sequences, FiniteSets, TLC
 
 CONSTANTS Peers,      \* peer universe
+          Kinds,      \* subset of {"C", "L", "N"}: Connected, Limited, "N" = every other Connectedness value
           G,          \* gracePeriod   (time units)
           I,          \* cleanupInterval
           Buf,        \* capacity of the subscription channel
@@ -76,7 +77,7 @@ CONSTANTS Peers,      \* peer universe
           InitData,   \* the peerstore knows every peer at the beginning
           Atomic      \* TRUE: a cleanup run is one step (no interference inside it)
 
-Kinds == {"C", "L", "N"}          \* "N": every Connectedness value other than Connected / Limited
+ASSUME Kinds \subseteq {"C", "L", "N"} /\ "N" \in Kinds
 Conn(k) == k \in {"C", "L"}
 Absent == -1
 None == [p |-> "-", k |-> "-", te |-> Absent]
